@@ -410,8 +410,10 @@ func (cx *Ctx) c02Liquidity(r *Report, per map[string][]bev) {
 			_, a2 := coinParts(outs[1])
 			r.check(factAt(pay, false, "math.Int.LT("+a1+", msg.MinStandardAmt)") && factAt(pay, false, "math.Int.LT("+a2+", msg.MinToken)"), "liquidity-bound", name+"|minima", pay.ev.Pos(cx), "¬(standard < msg.MinStandardAmt) and ¬(token < msg.MinToken) hold at the payout", "payout of "+a1+" / "+a2+" is not dominated by both minimum checks")
 		} else {
-			_, a := coinParts(outs[0])
+			d, a := coinParts(outs[0])
 			r.check(len(outs) == 1 && factAt(pay, false, "math.Int.LT("+a+", msg.MinToken.Amount)"), "liquidity-bound", name+"|minimum", pay.ev.Pos(cx), "¬(payout < msg.MinToken.Amount) holds at the payout", "payout of "+a+" is not dominated by the minimum check")
+			// the stated minimum is a coin: the payout it bounds is in that coin's denomination
+			r.check(len(outs) == 1 && d == "msg.MinToken.Denom", "liquidity-bound", name+"|minimum-denom", pay.ev.Pos(cx), "the payout is denominated in msg.MinToken.Denom, the denomination of the stated minimum", "the payout is denominated in "+d+", not in msg.MinToken.Denom: the stated minimum bounds an amount of another coin than the one paid")
 		}
 	}
 }
